@@ -15,7 +15,7 @@ rm -rf $S/verif/.build/tie
 cd $S/verif
 for c in "$@"; do
   out=$(VERIF_REPO=$S/repo ./check $c 2>&1); rc=$?
-  echo "$name $c rc=$rc $(echo "$out" | grep -m1 -E 'VIOLATION|KNOWN')"
+  echo "$name $c rc=$rc $(echo "$out" | grep -m1 -E '^VIOLATION' || echo "$out" | grep -m1 -E '^KNOWN')"
   if [ $rc -ne 0 ]; then mkdir -p /tmp/sbx-out; cp replays/$c-*.json /tmp/sbx-out/$name-$c.json 2>/dev/null; echo "$out" | tail -12 > /tmp/sbx-out/$name-$c.log; fi
 done
 git -C /repo worktree remove --force $S/repo
